@@ -1,6 +1,6 @@
 """C08 Fast-mode dataset equals light-mode items, however it is initialised."""
 import astq
-from rules import dsinit
+from rules import cgsize, dsinit
 
 LEVEL = 'other'
 TECHNIQUE = 'affine / interval case analysis of randomx_init_dataset over (count mod 4) x (count < 4) regions, constant-table agreement spec vs C++ vs assembled object, call-sequence and shape rules on the item construction'
@@ -19,3 +19,4 @@ def run(ctx, R):
     dsinit.rule_range(ctx, R, F)
     dsinit.rule_initsel(ctx, R, F)
     dsinit.rule_dsconst(ctx, R, F)
+    cgsize.rule_layout(ctx, R, F)
